@@ -325,6 +325,7 @@ type c19Env struct {
 	nt      bool
 	pending map[string]bool // files replaced while loaded, not yet rescanned
 	skipped int
+	gcTime  time.Duration
 }
 
 var c19Base = time.Unix(1_700_000_000, 0)
@@ -715,6 +716,7 @@ func runC19(rec *kit.Recorder, c c19Case) (err error) {
 		ls = append(ls, l)
 		rec.Add("events/"+l, n)
 	}
+	rec.Add("wall_ms_forced_gc_deterministic", int(e.gcTime.Milliseconds()))
 	if e.skipped > 0 {
 		rec.Add("ops_not_applicable", e.skipped)
 	}
@@ -753,9 +755,11 @@ func (e *c19Env) deterministic(c *c19Case) error {
 				return err
 			}
 		case "gc":
-			// run the finalizers of replaced shards (munmap)
+			// queue and run the finalizers of replaced shards (munmap)
+			t0 := time.Now()
 			runtime.GC()
-			runtime.GC()
+			runtime.Gosched()
+			e.gcTime += time.Since(t0)
 			e.label("gc")
 			if err := e.checkSearch(when, e.loaded); err != nil {
 				return err
@@ -1000,9 +1004,12 @@ func genC19(rt *rapid.T) c19Case {
 	if v, err := strconv.Atoi(os.Getenv("VERIF_C19_STRESS_PCT")); err == nil {
 		stressPct = v
 	}
-	c.Stress = g.Bool(stressPct, "stress")
-	kinds := []string{"write", "scan", "write", "scan", "write", "meta", "search", "delete", "write", "scan", "gc", "list", "write", "delete", "meta", "search"}
-	formats := []int{16, 16, 16, 17, 16, 15, 16, 17, 15, 18}
+	c.Stress = !g.Bool(100-stressPct, "stress") // shrinks towards false
+	kinds := []string{
+		"write", "write", "write", "write", "write", "write", "write", "scan", "scan", "scan", "scan", "meta", "meta", "search", "search", "delete", "list",
+		"write", "write", "write", "write", "write", "write", "write", "scan", "scan", "scan", "scan", "meta", "meta", "search", "search", "delete", "gc",
+	}
+	formats := []int{16, 16, 16, 16, 16, 16, 17, 17, 15, 18}
 	op := rapid.Custom(func(t *rapid.T) c19Op {
 		tg := kit.G{T: t}
 		o := c19Op{K: kit.Pick(tg, kinds, "op")}
@@ -1011,7 +1018,7 @@ func genC19(rt *rapid.T) c19Case {
 			o.R = rapid.IntRange(0, 2).Draw(t, "repo")
 			o.F = kit.Pick(tg, formats, "format")
 			o.Keep = rapid.Bool().Draw(t, "keep")
-			o.Old = tg.Bool(8, "old")
+			o.Old = !tg.Bool(92, "old")
 		case "delete", "meta":
 			o.Sel = rapid.IntRange(0, 7).Draw(t, "sel")
 		}
@@ -1020,8 +1027,8 @@ func genC19(rt *rapid.T) c19Case {
 	lo := kit.Pick(g, []int{6, 12, 20}, "minops")
 	hi := 60
 	if c.Stress {
-		c.Searchers = g.Int(2, 4, "searchers")
-		lo, hi = 25, 90
+		c.Searchers = g.Int(2, 3, "searchers")
+		lo, hi = 20, 70
 	}
 	c.Ops = rapid.SliceOfN(op, lo, hi).Draw(rt, "ops")
 	return c
